@@ -505,6 +505,8 @@ Definition call_method (c : cfg) (m : string) (self : expr) (args : list expr) :
   end.
 
 (* str(child) for an operator child: the token text (number / string tokens never name a method) *)
+Definition is_dunder (s : string) : bool := String.prefix "__" s.
+
 Definition tok_text (t : ltree) : option string :=
   match t with LTok (TSym s) => Some s | LTok (TName s) => Some s | _ => None end.
 
@@ -555,6 +557,17 @@ Fixpoint dict_combine (acc : list (pval * pval)) (ds : list expr) : option (list
       if existsb (fun kv => pval_eqb (fst kv) PNone) kvs then None
       else dict_combine (fold_left (fun a kv => pdict_set a (fst kv) (snd kv)) kvs acc) t
   | _ :: _ => None
+  end.
+
+(* the items of a list / tuple / set node (3753518): the children of a tuplelist_comp / set_comp (walked: `grs`),
+   nothing for [] and (), else the lone item itself (walked: the first of `rs`) *)
+Definition coll_items (cs : list ltree) (rs : list (res expr)) (grs : option (list (res expr)))
+  : option (list (res expr)) :=
+  match cs with
+  | [LNone] => Some []
+  | [LNode cd _] => if mem_str cd ["tuplelist_comp"; "set_comp"] then grs else Some [nth 0 rs Err]
+  | [LTok _] => Some [nth 0 rs Err]
+  | _ => None
   end.
 
 (* one node, given the walked children `rs`, the walked children `grs` of the first child (collections walk
@@ -622,11 +635,14 @@ Definition walk_node (c : cfg) (d : string) (cs : list ltree) (rs : list (res ex
                 match ccs, grs with
                 | o :: nm :: _, Some (ro :: _) =>
                     match ro, tok_text nm, args with
-                    | Ok self, Some m, Ok a => call_method c m self a
+                    | Ok self, Some m, Ok a =>
+                        if is_dunder m then Err                (* special methods are not callable from text (181daac) *)
+                        else call_method c m self a
                     | _, _, _ => Err
                     end
                 | _, _ => Err
                 end
+              else if negb (cd ==s "var") then Err             (* only a function name can be called (181daac) *)
               else
                 (* function invoke: op_name = str(carrier.children[0]) *)
                 match ccs with
@@ -657,8 +673,8 @@ Definition walk_node (c : cfg) (d : string) (cs : list ltree) (rs : list (res ex
     | _ => Err
     end
   else if mem_str d ["list"; "tuple"; "set"] then
-    match cs, grs with
-    | [_], Some l =>
+    match coll_items cs rs grs with
+    | Some l =>
         match all_ok l with
         | Ok vs =>
             match all_some (map (fun e => match e with EVal v => Some v | _ => None end) vs) with
@@ -670,7 +686,7 @@ Definition walk_node (c : cfg) (d : string) (cs : list ltree) (rs : list (res ex
             end
         | Err => Err
         end
-    | _, _ => Err
+    | None => Err
     end
   else if d ==s "dict" then
     match cs, grs with
@@ -703,7 +719,7 @@ Fixpoint walk (c : cfg) (dd : list string) (t : ltree) {struct t} : res expr :=
       match tk with
       | TInt n => Ok (EVal (PInt (Z.of_N n)))
       | TFloat (Some m) => Ok (EVal (PFloat false m))
-      | TFloat None => Ok (EVal (PInf false))
+      | TFloat None => Err                        (* float literal out of range (e648ab6) *)
       | TStr s => Ok (EVal (PStr s))
       | TName s => if mem_str s dd then Ok (ECol s) else Err       (* lookup_symbol *)
       | _ => Err
